@@ -7,8 +7,14 @@
 #include <cstdlib>
 #include <cstring>
 #include <string>
+#include <dirent.h>
+#include <time.h>
 #include <unistd.h>
 namespace hc {
+// number of threads of this process, as the kernel sees them
+inline int native_threads() { int n = 0; DIR * d = opendir("/proc/self/task"); if (!d) return -1; while (readdir(d)) n++; closedir(d); return n - 2; }
+// a joined thread can linger in /proc for a moment while the kernel reaps it: only a count that STAYS different is a leak
+inline bool threads_back_to(int base) { for (int i = 0; i < 500; i++) { if (native_threads() == base) return true; struct timespec ts = {0, 2000000}; nanosleep(&ts, nullptr); } return false; }
 inline void out_init() { setvbuf(stdout, nullptr, _IOLBF, 0); }
 inline void begin_case(const std::string & id) { printf("@case %s\n", id.c_str()); fflush(stdout); }
 inline std::string clean(std::string s) { for (auto & c : s) if (c == '\n' || c == '\r') c = ' '; return s; }
